@@ -147,10 +147,11 @@ class XmlData(XmlModifier):
             if issubclass(cls.type, AnyXml):
                 parent_elt.append(value)
             else:
+                # text, not bytes: lxml only takes ASCII as bytes
                 if len(parent_elt) == 0:
-                    parent_elt.text = prot.to_bytes(cls.type, value)
+                    parent_elt.text = prot.to_unicode(cls.type, value)
                 else:
-                    parent_elt[-1].tail = prot.to_bytes(cls.type, value)
+                    parent_elt[-1].tail = prot.to_unicode(cls.type, value)
 
     @classmethod
     def get_type_name(cls):
